@@ -25,7 +25,11 @@ var reps = map[string][]string{
 	"LB": {"{"}, "RB": {"}"}, "LK": {"["}, "RK": {"]"}, "COMMA": {","}, "COLON": {":"}, "DQ": {`"`}, "BS": {`\`},
 	"SP":   {" "},
 	"NLWS": {"\t", "\n", "\r"},
-	"CH":   {"a", "Z", "é", "😀", "'", "$", "~"},
+	// ordinary characters, including ones that matter to grapheme-cluster segmentation (column counting):
+	// a combining mark and a zero-width joiner; "prepend" characters, which form one cluster with whatever
+	// FOLLOWS them, are a class of their own
+	"CH":   {"a", "Z", "é", "😀", "'", "$", "~", "\u0301", "\u200d"},
+	"PRE":  {"\u0600", "\U000110BD", "\u06dd"},
 	"ESCL": {"n", "t", "r", "b", "f", "/"},
 	"U4":   {"u0041", "uD83D", "u00e9", "u0000", "uDE00", "u2028"},
 	"U2":   {"u0g", "uZZ"},
